@@ -85,7 +85,14 @@ namespace awkward {
 
       while (dst.get() == nullptr  ||  dst.get()->length() < length) {
         ContentPtr piece(nullptr);
-        ContentPtr src = partitions_[(size_t)partitionid];
+        // All data may already be consumed when trailing new partitions are
+        // empty: take (nothing) from the end of the last partition then.
+        bool exhausted = (partitionid >= numpartitions());
+        ContentPtr src = partitions_[(size_t)(exhausted ? numpartitions() - 1
+                                                        : partitionid)];
+        if (exhausted) {
+          index = src.get()->length();
+        }
         int64_t available = src.get()->length() - index;
         int64_t desired = (dst.get() == nullptr ? length
                                                 : length - dst.get()->length());
